@@ -1220,6 +1220,15 @@ where
     }
 }
 
+// Verification hook (built only with `--cfg bma400_verif`)
+#[cfg(bma400_verif)]
+impl<T> BMA400<T> {
+    /// (address, recorded byte) of every configuration register the driver keeps track of
+    pub fn verif_shadow(&self) -> [(u8, u8); 57] {
+        self.config.verif_shadow()
+    }
+}
+
 #[cfg(test)]
 mod tests {
     use super::*;
